@@ -1,7 +1,7 @@
 (** C09 - spline quadrature weights integrate the interpolant (get_quadrature_coefficients of
     spline_interpolators.py, BSplines._build_integrals of splines.py).
-    Only statements, [exact]s and [Print Assumptions]; proofs in InterpTheory.v (model: InterpModel.v; seed:
-    Sums.weights_dual) and InterpQc.v (Qc instance, witnesses).  Every theorem holds for every field with a
+    Only statements, [exact]s and [Print Assumptions]; proofs in InterpTheory.v and QuadTheory.v (model: InterpModel.v; seeds:
+    Sums.weights_dual, CoxDeBoorGen.basis_eq_delta) and InterpQc.v (Qc instance, witnesses).  Every theorem holds for every field with a
     compatible decidable total order, every degree and size.
 
     Model: [ip_integrals] is _build_integrals as written (general branch: degree-raised basis on the knots
@@ -11,8 +11,6 @@
     periodic folding basis_quads[:p] += integrals[n:] = [ip_quad_rhs]); [ip_quadrature] composes them.
 
     NOT proved here (see the evidence, "uncovered_clauses"):
-    - integral_formula_clamped: that the degree-raised evaluation returns (t_{j+p+1} - t_j)/(p+1) - compared
-      exactly with that closed form on every tested clamped space instead;
     - that (t_{j+p+1} - t_j)/(p+1) IS the integral of B_j (classical identity, cited) - the harness integrates
       every basis function piecewise exactly, independently of the model;
     - all weights equal dx on EVERY uniform periodic space: proved in certificate form
@@ -26,7 +24,7 @@
     [c09_integrals_cubic_clamped_small_refuted]. *)
 From Coq Require Import List Arith Lia ZArith Bool QArith Qcanon.
 Import ListNotations.
-From PGV Require Import BasisCoxDeBoor CoxDeBoorGen FindSpan CubicUniform CollocRow Sums SplineModel SplineTheory SplineQc InterpModel InterpTheory InterpQc.
+From PGV Require Import BasisCoxDeBoor CoxDeBoorGen FindSpan CubicUniform CollocRow Sums SplineModel SplineTheory SplineQc InterpModel InterpTheory Interp2D QuadTheory GrevilleTheory InterpQc.
 
 (** the weights solve the TRANSPOSED collocation system C^T w = q, q = integrals (clamped) or the folded integrals (periodic) *)
 Theorem c09_quad_from_spec :
@@ -116,6 +114,66 @@ Theorem c09_rows_sum_one_nu :
   ip_rows_sum_one F K nb A.
 Proof. exact (@ip_rows_sum_one_nu). Qed.
 Print Assumptions c09_rows_sum_one_nu.
+
+(** integral_formula_clamped: on a clamped space (knots as make_knots builds them: [ip_clamped]) the degree-raised evaluation of _build_integrals - nu_find_span / nu_basis_funs of degree p+1 on the extended knots at max(a, t_i) and min(b, t_{i+p+1}), sum(values[min_idx:]) - returns (t_{i+p+1} - t_i)/(p+1) for EVERY basis function (cumulated value 0 at the lower bound: last value of A2.2 at a knot / clamped left end values; 1 at the upper bound: partition of unity / clamped right end values) *)
+Theorem c09_integral_formula_clamped :
+  forall (F : Type) (K : sp_ops F),
+  sp_laws K ->
+  forall (knots : list F) (d i : nat),
+  ip_clamped F K knots d ->
+  (i < length knots - d - 1)%nat ->
+  ip_integral_general F K knots (ip_kx F K knots) d i =
+  SpOk
+  (spmul K (spsub K (sp_kn F K knots (i + d + 1)) (sp_kn F K knots i))
+  (spdiv K (sp1 K) (sp_ofnat F K (S d)))).
+Proof. exact (@ip_integral_clamped). Qed.
+Print Assumptions c09_integral_formula_clamped.
+
+(** hence BSplines.integrals of a clamped general space is the list of (t_{i+p+1} - t_i)/(p+1) *)
+Theorem c09_integrals_clamped :
+  forall (F : Type) (K : sp_ops F),
+  sp_laws K ->
+  forall (knots : list F) (d : nat),
+  ip_clamped F K knots d ->
+  ip_space_ok F K knots d false false = true ->
+  ip_integrals F K knots d false false =
+  SpOk
+  (map
+  (fun i : nat =>
+  spmul K (spsub K (sp_kn F K knots (i + d + 1)) (sp_kn F K knots i))
+  (spdiv K (sp1 K) (sp_ofnat F K (S d)))) (seq 0 (length knots - d - 1))).
+Proof. exact (@ip_integrals_clamped). Qed.
+Print Assumptions c09_integrals_clamped.
+
+(** which sums (telescoping) to the length b - a of the domain *)
+Theorem c09_integrals_clamped_sum :
+  forall (F : Type) (K : sp_ops F),
+  sp_laws K ->
+  forall (knots : list F) (d : nat),
+  ip_clamped F K knots d ->
+  sumn F (sp0 K) (spadd K) (length knots - d - 1)
+  (fun i : nat =>
+  spmul K (spsub K (sp_kn F K knots (i + d + 1)) (sp_kn F K knots i))
+  (spdiv K (sp1 K) (sp_ofnat F K (S d)))) =
+  spsub K (sp_kn F K knots (length knots - 1 - d)) (sp_kn F K knots d).
+Proof. exact (@ip_integrals_clamped_sum). Qed.
+Print Assumptions c09_integrals_clamped_sum.
+
+(** the quadrature weights of a clamped general space, for interpolation points in the domain, sum to the length of the domain *)
+Theorem c09_weights_sum_clamped :
+  forall (F : Type) (K : sp_ops F),
+  sp_laws K ->
+  forall (knots : list F) (d : nat) (xs w : list F),
+  ip_clamped F K knots d ->
+  ip_quadrature F K knots d false false xs = SpOk w ->
+  (forall i : nat,
+  (i < ip_nbasis F K knots d false false)%nat ->
+  sp_le K (sp_kn F K knots d) (nth i xs (sp0 K)) /\
+  sp_le K (nth i xs (sp0 K)) (sp_kn F K knots (length knots - 1 - d))) ->
+  ip_sum F K (ip_nbasis F K knots d false false) (fun i : nat => nth i w (sp0 K)) =
+  spsub K (sp_kn F K knots (length knots - 1 - d)) (sp_kn F K knots d).
+Proof. exact (@ip_weights_sum_clamped). Qed.
+Print Assumptions c09_weights_sum_clamped.
 
 (** uniform periodic spaces, certificate form: columns of C sum to one, folded integrals all dx, checked inverse  ==>  every weight is dx *)
 Theorem c09_weights_equal_cert :
